@@ -1,1 +1,327 @@
-(** Props/C18.v — placeholder, to be written. *)
+(** Props/C18.v — CLI exit codes and the argument-to-context contract.
+    Statements only; every proof is [exact] of a lemma from Proofs/.  The models are
+    Model/Cli.v (pypyr.cli.main, pypyr's argparse configuration, Pipeline._get_parse_input,
+    Pipeline._prepare_context) and Model/Parsers.v (pypyr/parser/*.py); they are tied to /repo
+    by the correspondence run of harness/props/C18.py.
+
+    [runner] is an arbitrary function from the call main makes into pypyr.pipelinerunner.run
+    to the way that call ends: the exit-code theorems hold for every pipeline and every engine
+    behaviour, for every command line the argv model accepts. *)
+From PV Require Import Parsers Cli ParsersProofs CliProofs.
+Open Scope string_scope.
+
+(** * Exit codes *)
+
+(** None/0 when the run completed or was stopped; 255 and "\n<ESC>[91m<Type>: <msg><ESC>[0;0m\n"
+    on stderr for ANY Exception; 130 and a newline on stdout for KeyboardInterrupt; any other
+    BaseException is not caught by main. *)
+Theorem C18_exit_code : forall runner cwd argv m,
+  cli_main runner cwd argv = Ok m ->
+  exists a, parse_argv argv = Ok a /\
+    match runner (call_of cwd a) with
+    | Completed | Stopped =>
+        m = Returned None "" "" false /\ process_status m = 0%Z
+    | RaisedException ty msg =>
+        m = Returned (Some 255%Z) "" (err_text ty msg) (wants_traceback (a_log a))
+        /\ process_status m = 255%Z
+    | RaisedKeyboardInterrupt =>
+        m = Returned (Some 130%Z) nl "" false /\ process_status m = 130%Z
+    | e => m = Propagated e
+    end.
+Proof. exact exit_code_table. Qed.
+Print Assumptions C18_exit_code.
+
+(** FULL STATEMENT (false of the faithful model):
+      forall log e, process_status (main_of_end log e) = 0 <-> e = Completed \/ e = Stopped.
+    A step that raises SystemExit(0) — sys.exit() in custom code — is caught neither by the step
+    machinery nor by main (SystemExit is not an Exception): the process exits 0 although the
+    pipeline neither completed nor was stopped. *)
+Theorem C18_exit_zero_iff_refuted :
+  exists log e, process_status (main_of_end log e) = 0%Z /\ e <> Completed /\ e <> Stopped.
+Proof. exact exit_zero_iff_refuted. Qed.
+Print Assumptions C18_exit_zero_iff_refuted.
+
+(** … and it holds for every way of ending other than an escaping SystemExit. *)
+Theorem C18_exit_zero_iff_partial : forall log e,
+  is_system_exit e = false ->
+  (process_status (main_of_end log e) = 0%Z <-> e = Completed \/ e = Stopped).
+Proof. exact exit_zero_iff_partial. Qed.
+Print Assumptions C18_exit_zero_iff_partial.
+
+(** * Pass-through of the command line
+    [items] is any list of option groups (any order, repetitions allowed, the last occurrence
+    wins); [bare_args name ctx] has every option unset. *)
+
+(** pypyr NAME CTX… [options…] *)
+Theorem C18_argv_positionals_first : forall name ctx items,
+  plain name -> Forall plain ctx -> Forall item_wf items ->
+  parse_argv (name :: ctx ++ render_items items) = Ok (apply_items items (bare_args name ctx)).
+Proof. exact parse_argv_positionals_first. Qed.
+Print Assumptions C18_argv_positionals_first.
+
+(** pypyr [options…] -- NAME CTX…   (context arguments may then start with '-') *)
+Theorem C18_argv_options_first : forall name ctx items,
+  name <> "--" -> Forall (fun t => t <> "--") ctx -> Forall item_wf items ->
+  parse_argv (render_items items ++ "--" :: name :: ctx)
+  = Ok (apply_items items (bare_args name ctx)).
+Proof. exact parse_argv_options_first. Qed.
+Print Assumptions C18_argv_options_first.
+
+(** pypyr options… NAME CTX…   (the last option is not --groups, which would swallow them) *)
+Theorem C18_argv_options_then_positionals : forall name ctx items it,
+  plain name -> Forall plain ctx -> Forall item_wf items -> item_wf it ->
+  (forall g, it <> IGroups g) ->
+  parse_argv (render_items (items ++ [it]) ++ name :: ctx)
+  = Ok (apply_items (items ++ [it]) (bare_args name ctx)).
+Proof. exact parse_argv_options_then_positionals. Qed.
+Print Assumptions C18_argv_options_then_positionals.
+
+(** options never touch the pipeline name or the context arguments … *)
+Theorem C18_options_keep_name_and_args : forall items a,
+  a_name (apply_items items a) = a_name a /\ a_ctx (apply_items items a) = a_ctx a.
+Proof. exact apply_items_name_ctx. Qed.
+Print Assumptions C18_options_keep_name_and_args.
+
+(** … and main hands everything to the runner as parsed, with parse_args=True. *)
+Theorem C18_passthrough : forall cwd a,
+  let c := call_of cwd a in
+  rc_name c = a_name a /\ rc_args_in c = Some (a_ctx a) /\ rc_groups c = a_groups a
+  /\ rc_success c = a_success a /\ rc_failure c = a_failure a
+  /\ rc_dir c = (match a_dir a with Some d => d | None => cwd end)
+  /\ rc_parse_args c = Some true /\ rc_dict_in c = None /\ rc_loader c = None.
+Proof. exact call_passthrough. Qed.
+Print Assumptions C18_passthrough.
+
+(** * The parsers *)
+
+(** key=value: split on the FIRST '=' … *)
+Theorem C18_kvp_first_eq : forall a b,
+  contains_char eq_char a = false -> kv_of (a ++ String eq_char b) = (a, b).
+Proof. exact kvp_first_eq_split. Qed.
+Print Assumptions C18_kvp_first_eq.
+
+(** … no '=' at all: the whole argument is the key, the value is "" *)
+Theorem C18_kvp_no_eq : forall s, contains_char eq_char s = false -> kv_of s = (s, "").
+Proof. exact kvp_first_eq_bare. Qed.
+Print Assumptions C18_kvp_no_eq.
+
+(** (every string is of one of these two forms) *)
+Theorem C18_kvp_forms_exhaustive : forall s,
+  (has_eq s = false /\ kv_of s = (s, "")) \/
+  (exists a b, s = a ++ String eq_char b /\ has_eq a = false /\ kv_of s = (a, b)).
+Proof. exact kv_of_cases. Qed.
+Print Assumptions C18_kvp_forms_exhaustive.
+
+(** later duplicates win: the value under [k] is that of the LAST argument whose key is [k] *)
+Theorem C18_kvp_last_wins : forall l1 s l2 k v,
+  kv_of s = (k, v) ->
+  (forall s', In s' l2 -> key_of s' <> k) ->
+  sget k (kvp_dict (l1 ++ s :: l2)%list) = Some (VStr v).
+Proof. exact kvp_last_wins. Qed.
+Print Assumptions C18_kvp_last_wins.
+
+Theorem C18_kvp_no_other_keys : forall l k,
+  (forall s, In s l -> key_of s <> k) -> sget k (kvp_dict l) = None.
+Proof. exact kvp_absent. Qed.
+Print Assumptions C18_kvp_no_other_keys.
+
+(** … while each key stays at the position of its FIRST occurrence (Python dict order) *)
+Theorem C18_kvp_key_order : forall l,
+  dict_keys (kvp_dict l) = map VStr (dedup (map key_of l)).
+Proof. exact kvp_key_order. Qed.
+Print Assumptions C18_kvp_key_order.
+
+(** list: the arguments, in order *)
+Theorem C18_list_in_order : forall l,
+  parse_list (Some l) = Some [(VStr "argList", VList (map VStr l))].
+Proof. exact parse_list_in_order. Qed.
+Print Assumptions C18_list_in_order.
+
+(** string: joined by single spaces — [join], and exactly one extra character per gap *)
+Theorem C18_string_single_spaces : forall l,
+  parse_string (Some l) = Some [(VStr "argString", VStr (join " " l))]
+  /\ String.length (join " " l) = (total_length l + (List.length l - 1))%nat.
+Proof. intros l. split; [apply parse_string_joined|apply join_space_length]. Qed.
+Print Assumptions C18_string_single_spaces.
+
+(** keys: every bare key maps to true, nothing else is there, first-occurrence order *)
+Theorem C18_keys_true : forall l k,
+  sget k (keys_dict l) = (if str_in k l then Some (VBool true) else None)
+  /\ dict_keys (keys_dict l) = map VStr (dedup l).
+Proof. intros l k. split; [apply keys_lookup|apply keys_key_order]. Qed.
+Print Assumptions C18_keys_true.
+
+(** argskwargs: arguments without '=' go to argList in order; the others are exactly the
+    keyvaluepairs reading of themselves; argList is written last *)
+Theorem C18_argskwargs_split : forall l,
+  argskwargs_dict l
+  = sset "argList" (VList (map VStr (filter no_eq l))) (kvp_dict (filter has_eq l)).
+Proof. exact argskwargs_split. Qed.
+Print Assumptions C18_argskwargs_split.
+
+(** dict: the keyvaluepairs reading, nested under argDict ({} when there are no arguments) *)
+Theorem C18_dict_nested : forall a,
+  parse_dict a
+  = Some [(VStr "argDict", VDict (match parse_keyvaluepairs a with Some d => d | None => [] end))].
+Proof. exact parse_dict_nested. Qed.
+Print Assumptions C18_dict_nested.
+
+(** json: whatever the loader makes of the space-joined arguments — if it is an object *)
+Theorem C18_json_shape : forall x l,
+  parse_json (Some (x :: l))
+  = match json_loads (join " " (x :: l)) with
+    | Ok (VDict d) => Ok (Some d)
+    | Ok _ => Err "TypeError" json_type_error_msg
+    | Err n m => Err n m
+    | Unsup => Unsup
+    end.
+Proof. exact parse_json_shape. Qed.
+Print Assumptions C18_json_shape.
+
+(** total: no argument list makes a (non-json) parser raise; deterministic: a Gallina function
+    of the argument list; None and [] are the same input *)
+Theorem C18_parsers_total_deterministic :
+  (forall p a, p <> PJson -> exists r, run_parser p a = Ok r)
+  /\ (forall p a1 a2, a1 = a2 -> run_parser p a1 = run_parser p a2)
+  /\ (forall p, run_parser p None = run_parser p (Some [])).
+Proof.
+  split; [exact parsers_total|split; [intros p a1 a2 ->; reflexivity|exact parsers_none_is_empty]].
+Qed.
+Print Assumptions C18_parsers_total_deterministic.
+
+Theorem C18_empty_args_shapes : forall a,
+  args_falsy a = true ->
+  run_parser PKeyValuePairs a = Ok None
+  /\ run_parser PKeys a = Ok None
+  /\ run_parser PJson a = Ok None
+  /\ run_parser PList a = Ok (Some [(VStr "argList", VList [])])
+  /\ run_parser PArgsKwargs a = Ok (Some [(VStr "argList", VList [])])
+  /\ run_parser PString a = Ok (Some [(VStr "argString", VStr "")])
+  /\ run_parser PDict a = Ok (Some [(VStr "argDict", VDict [])]).
+Proof. exact empty_args_shapes. Qed.
+Print Assumptions C18_empty_args_shapes.
+
+(** every result is a dict with string keys, each key once *)
+Theorem C18_parser_results_unique_string_keys : forall p a d,
+  p <> PJson -> run_parser p a = Ok (Some d) ->
+  exists qs, d = skv qs /\ NoDup (map fst qs).
+Proof. exact parser_result_alist. Qed.
+Print Assumptions C18_parser_results_unique_string_keys.
+
+(** * The API: when the parser runs *)
+
+(** the full 3 x 2 x 2 table of Pipeline._get_parse_input *)
+Theorem C18_parse_input_table :
+  (forall ai di, get_parse_input (Some true) ai di = true)
+  /\ (forall ai di, get_parse_input (Some false) ai di = false)
+  /\ (forall ai di, args_falsy ai = false -> get_parse_input None ai di = true)
+  /\ (forall ai, get_parse_input None ai None = true)
+  /\ (forall ai d, args_falsy ai = true -> get_parse_input None ai (Some d) = false).
+Proof. exact parse_input_table. Qed.
+Print Assumptions C18_parse_input_table.
+
+(** the parser is skipped exactly when parsing was disabled, or left open with a dict and no
+    arguments *)
+Theorem C18_parser_skipped_iff : forall pa ai di,
+  get_parse_input pa ai di = false
+  <-> pa = Some false \/ (pa = None /\ args_falsy ai = true /\ di <> None).
+Proof. exact parser_skipped_iff. Qed.
+Print Assumptions C18_parser_skipped_iff.
+
+(** the parser's result update()s the context; None (and {}) leave it alone; errors escape *)
+Theorem C18_parser_result_updates_context : forall parse_input parser a ctx,
+  prepare_context parse_input parser a ctx =
+  match parse_input, parser with
+  | false, _ => Ok ctx
+  | true, None => Ok ctx
+  | true, Some p =>
+      match run_parser p a with
+      | Ok None => Ok ctx
+      | Ok (Some d) => Ok (dict_update ctx d)
+      | Err n m => Err n m
+      | Unsup => Unsup
+      end
+  end.
+Proof. exact prepare_context_spec. Qed.
+Print Assumptions C18_parser_result_updates_context.
+
+(** … and update means: parsed keys win, every other key keeps its value *)
+Theorem C18_update_semantics : forall p a ctx qs k,
+  run_parser p a = Ok (Some (skv qs)) -> NoDup (map fst qs) ->
+  exists ctx', prepare_context true (Some p) a ctx = Ok ctx'
+    /\ sget k ctx' = match aget k qs with Some v => Some v | None => sget k ctx end.
+Proof. exact prepare_context_lookup. Qed.
+Print Assumptions C18_update_semantics.
+
+(** from the command line the first step sees exactly the parser's result *)
+Theorem C18_cli_first_step_context : forall p argv a d,
+  p <> PJson -> parse_argv argv = Ok a ->
+  run_parser p (Some (a_ctx a)) = Ok (Some d) ->
+  cli_first_step_context (Some p) argv = Ok d.
+Proof. exact cli_context_builtin. Qed.
+Print Assumptions C18_cli_first_step_context.
+
+(** * Non-vacuity: concrete instances, evaluated *)
+Definition argvA : list string :=
+  ["pipe"; "a=b=c"; "x y"; "a=2"; "--groups"; "g1"; "g 2"; "--success"; "s"; "--log"; "50";
+   "--groups"; "only"].
+
+Example C18_argv_nonvacuous :
+  parse_argv argvA
+  = Ok (mk_cli_args "pipe" ["a=b=c"; "x y"; "a=2"] (Some ["only"]) (Some "s") None None
+                    (Some 50%Z) None)
+  /\ argvA = "pipe" :: ["a=b=c"; "x y"; "a=2"]
+             ++ render_items [IGroups ["g1"; "g 2"]; ISuccess "s"; ILog false "50"; IGroups ["only"]]
+  /\ Forall item_wf [IGroups ["g1"; "g 2"]; ISuccess "s"; ILog false "50"; IGroups ["only"]]
+  /\ parse_argv ["--dir"; "d"; "--"; "pipe"; "-x=1"]
+     = Ok (mk_cli_args "pipe" ["-x=1"] None None None (Some "d") None None)
+  /\ parse_argv ["--failure"; "f"; "pipe"; "k"]
+     = Ok (mk_cli_args "pipe" ["k"] None None (Some "f") None None None)
+  /\ parse_argv ["pipe"; "--success"; "s"; "late"] = Unsup.
+Proof. vm_compute. repeat split; repeat constructor. Qed.
+
+Example C18_exit_code_nonvacuous :
+  cli_main (fun _ => RaisedException "ValueError" "boom") "/cwd" argvA
+  = Ok (Returned (Some 255%Z) "" (err_text "ValueError" "boom") false)
+  /\ cli_main (fun _ => RaisedException "KeyError" "'k'") "/cwd" ["p"; "--log"; "5"]
+     = Ok (Returned (Some 255%Z) "" (err_text "KeyError" "'k'") true)
+  /\ cli_main (fun _ => Stopped) "/cwd" ["p"] = Ok (Returned None "" "" false)
+  /\ cli_main (fun c => if strs_eqb (args_list (rc_args_in c)) ["a=b=c"; "x y"; "a=2"]
+                        then RaisedKeyboardInterrupt else Completed) "/cwd" argvA
+     = Ok (Returned (Some 130%Z) nl "" false)
+  /\ process_status (Propagated (RaisedSystemExit (Some 3%Z))) = 3%Z
+  /\ is_system_exit (RaisedOtherBase "GeneratorExit" "") = false.
+Proof. vm_compute. repeat split. Qed.
+
+Example C18_parsers_nonvacuous :
+  parse_keyvaluepairs (Some ["a=b=c"; "x y"; "a=2"; "=v"; "k="])
+  = Some [(VStr "a", VStr "2"); (VStr "x y", VStr ""); (VStr "", VStr "v"); (VStr "k", VStr "")]
+  /\ parse_argskwargs (Some ["p1"; "k=v"; "p 2"; "k=w"; "argList=z"])
+     = Some [(VStr "k", VStr "w"); (VStr "argList", VList [VStr "p1"; VStr "p 2"])]
+  /\ parse_keys (Some ["b"; "a"; "b"])
+     = Some [(VStr "b", VBool true); (VStr "a", VBool true)]
+  /\ parse_string (Some ["a"; ""; "b c"]) = Some [(VStr "argString", VStr "a  b c")]
+  /\ parse_dict (Some ["a=1"]) = Some [(VStr "argDict", VDict [(VStr "a", VStr "1")])]
+  /\ parse_json (Some ["{""a"":"; "[1,"; "-2],"; """b"":{""c"":null}, ""a"":true}"])
+     = Ok (Some [(VStr "a", VBool true); (VStr "b", VDict [(VStr "c", VNone)])])
+  /\ parse_json (Some ["[1]"]) = Err "TypeError" json_type_error_msg
+  /\ parse_json (Some ["{""a"":01}"]) = Err "json.decoder.JSONDecodeError" ""
+  /\ kv_of "a=b=c" = ("a", "b=c")
+  /\ (exists l1 s l2, ["a=b=c"; "x y"; "a=2"] = (l1 ++ s :: l2)%list /\ kv_of s = ("a", "2")
+        /\ forall s', In s' l2 -> key_of s' <> "a").
+Proof.
+  vm_compute. repeat split.
+  exists ["a=b=c"; "x y"], "a=2", []. repeat split. intros s' [].
+Qed.
+
+Example C18_api_nonvacuous :
+  api_first_step_context (Some PKeyValuePairs) None (Some ["a=1"]) (Some [(VStr "a", VInt 0); (VStr "z", VInt 9)])
+  = Ok [(VStr "a", VStr "1"); (VStr "z", VInt 9)]
+  /\ api_first_step_context (Some PKeyValuePairs) None None (Some [(VStr "a", VInt 0)])
+     = Ok [(VStr "a", VInt 0)]
+  /\ api_first_step_context (Some PList) (Some true) None (Some [(VStr "a", VInt 0)])
+     = Ok [(VStr "a", VInt 0); (VStr "argList", VList [])]
+  /\ cli_first_step_context (Some PKeyValuePairs) argvA
+     = Ok [(VStr "a", VStr "2"); (VStr "x y", VStr "")]
+  /\ (exists ai d, args_falsy ai = true /\ get_parse_input None ai (Some d) = false).
+Proof. vm_compute. repeat split. exists (Some []), []. split; reflexivity. Qed.
